@@ -742,4 +742,186 @@ theorem drain_encode_noctl (mx : Nat) : ∀ (fs : List Frame) (rid : U64 × U64)
       · exact h1 _ r hs
       · exact ih r none hall' (by intro c hc'; cases hc') p hp
 
+/-! ### the stream layers emit well-formed sequences -/
+
+/-- kinds passed to RawWrite fit their 6 bits -/
+def opOk : Op → Prop
+  | .write k _ => k.toNat < 64
+  | _ => True
+
+theorem single_eq_split (sid mid : U64) (kind : Byte) (ctl : Bool) (data : Bytes) :
+    [single sid mid kind ctl data] = splitFrames sid mid kind ctl 0 data := by
+  rw [splitFrames_zero]; rfl
+
+/-- what one API call puts on the wire: nothing (the message id stays or is bumped), or one packet
+    with the next message id, split somehow -/
+theorem emitStep_shape (m : Nat) (soft : Bool) (sid : U64) (s : EState) (op : Op) (hop : opOk op) :
+    ((emitStep m soft sid s op).2 = [] ∧
+      ((emitStep m soft sid s op).1.mid = s.mid ∨ (emitStep m soft sid s op).1.mid = s.mid + 1#64)) ∨
+    (∃ k ctl m' d, (emitStep m soft sid s op).2 = splitFrames sid (s.mid + 1#64) k ctl m' d ∧
+      (emitStep m soft sid s op).1.mid = s.mid + 1#64 ∧ k.toNat < 64) := by
+  cases op with
+  | write k d =>
+    simp only [emitStep]
+    split
+    · left; simp
+    · right; exact ⟨k, false, m, d, rfl, rfl, hop⟩
+  | sendError c msg =>
+    simp only [emitStep]
+    split
+    · left; simp
+    · right; exact ⟨3#8, false, 0, _, single_eq_split _ _ _ _ _, rfl, by decide⟩
+  | sendCancel =>
+    simp only [emitStep]
+    split
+    · left; simp
+    · right; exact ⟨4#8, true, 0, _, single_eq_split _ _ _ _ _, rfl, by decide⟩
+  | close =>
+    simp only [emitStep]
+    split
+    · left; simp
+    · right; exact ⟨5#8, false, 0, _, single_eq_split _ _ _ _ _, rfl, by decide⟩
+  | closeSend =>
+    simp only [emitStep]
+    split
+    · left; simp
+    · right; exact ⟨6#8, false, 0, _, single_eq_split _ _ _ _ _, rfl, by decide⟩
+  | cancel => left; simp [emitStep]
+  | flush => left; simp [emitStep]
+
+/-- `g ≤ (sid, mid)` and no wrap-around: `g < (sid, mid + 1)` and `g ≤ (sid, mid + 1)` -/
+theorem idLess_bump {g1 g2 sid mid : U64} (h : idLess sid mid g1 g2 = false) (hw : mid.toNat + 1 < 2 ^ 64) :
+    idLess g1 g2 sid (mid + 1#64) = true ∧ idLess sid (mid + 1#64) g1 g2 = false := by
+  rw [idLess_false_iff] at h
+  rw [idLess_iff, idLess_false_iff]
+  unfold idLt at *
+  simp only [BitVec.toNat_add, BitVec.toNat_ofNat] at *
+  have : (mid.toNat + 1 % 2 ^ 64) % 2 ^ 64 = mid.toNat + 1 := by omega
+  simp only [this]
+  omega
+
+theorem emitOps_wf (m : Nat) (soft : Bool) (sid : U64) (rest : List Frame)
+    (hrest : ∀ g' : Frame, g'.sid.toNat ≤ sid.toNat → wfFrom g' rest = true) :
+    ∀ (ops : List Op) (s : EState) (g : Frame), (∀ op ∈ ops, opOk op) →
+    s.mid.toNat + ops.length < 2 ^ 64 → idLess sid s.mid g.sid g.mid = false →
+    wfFrom g (emitOps m soft sid s ops ++ rest) = true := by
+  intro ops
+  induction ops with
+  | nil =>
+    intro s g _ _ hg
+    simp only [emitOps, List.nil_append]
+    apply hrest
+    rw [idLess_false_iff] at hg
+    unfold idLt at hg; simp at hg; omega
+  | cons op ops ih =>
+    intro s g hok hw hg
+    simp only [List.length_cons] at hw
+    simp only [emitOps, List.append_assoc]
+    have hok' : ∀ o ∈ ops, opOk o := fun o ho => hok o (by simp [ho])
+    obtain ⟨hb1, hb2⟩ := idLess_bump hg (by omega)
+    rcases emitStep_shape m soft sid s op (hok op (by simp)) with ⟨he, hm⟩ | ⟨k, ctl, m', d, he, hm, hk⟩
+    · rw [he, List.nil_append]
+      rcases hm with hm | hm
+      · exact ih _ g hok' (by rw [hm]; omega) (by rw [hm]; exact hg)
+      · refine ih _ g hok' ?_ (by rw [hm]; exact hb2)
+        rw [hm]; simp only [BitVec.toNat_add, BitVec.toNat_ofNat]; omega
+    · rw [he]
+      apply wfFrom_splitFrames _ _ _ _ _ _ hk _ _ (Nat.le_refl _)
+      · simp [wfNext, hk, hb1]
+      · intro last h1 h2 _
+        refine ih _ last hok' ?_ ?_
+        · rw [hm]; simp only [BitVec.toNat_add, BitVec.toNat_ofNat]; omega
+        · rw [hm, h1, h2]; exact idLess_irrefl _ _
+
+/-- stream ids strictly increasing, the first one above `prev` -/
+def sidsIncreasing : U64 → List (U64 × List Op) → Prop
+  | _, [] => True
+  | prev, (sid, _) :: rest => prev.toNat < sid.toNat ∧ sidsIncreasing sid rest
+
+def connOk (conn : List (U64 × List Op)) : Prop :=
+  ∀ st ∈ conn, (∀ op ∈ st.2, opOk op) ∧ st.2.length < 2 ^ 64
+
+theorem emitConn_wf (m : Nat) (soft : Bool) : ∀ (conn : List (U64 × List Op)) (g : Frame),
+    connOk conn →
+    (match conn with | [] => True | (sid, _) :: rest => idLess sid 0#64 g.sid g.mid = false ∧ sidsIncreasing sid rest) →
+    wfFrom g (emitConn m soft conn) = true := by
+  intro conn
+  induction conn with
+  | nil => intro g _ _; simp [emitConn, wfFrom]
+  | cons st rest ih =>
+    obtain ⟨sid, ops⟩ := st
+    intro g hok hinc
+    simp only at hinc
+    obtain ⟨hg, hincr⟩ := hinc
+    simp only [emitConn]
+    have hok' : connOk rest := fun x hx => hok x (by simp [hx])
+    obtain ⟨hops, hlen⟩ := hok (sid, ops) (by simp)
+    apply emitOps_wf m soft sid _ _ ops EState.init g hops (by simp [EState.init]; exact hlen) (by simpa [EState.init] using hg)
+    intro g' hg'
+    apply ih g' hok'
+    cases rest with
+    | nil => trivial
+    | cons st2 rest2 =>
+      obtain ⟨sid2, ops2⟩ := st2
+      simp only [sidsIncreasing] at hincr
+      refine ⟨?_, hincr.2⟩
+      rw [idLess_false_iff]
+      unfold idLt; simp; omega
+
+theorem emitStep_noctl (m : Nat) (sid : U64) (s : EState) (op : Op) :
+    ∀ f ∈ (emitStep m false sid s op).2, f.control = false := by
+  cases op with
+  | write k d =>
+    simp only [emitStep]
+    split
+    · simp
+    · exact splitFrames_control _ _ _ _ _ _
+  | sendError c msg => simp only [emitStep]; split <;> simp [single]
+  | sendCancel => simp [emitStep]
+  | close => simp only [emitStep]; split <;> simp [single]
+  | closeSend => simp only [emitStep]; split <;> simp [single]
+  | cancel => simp [emitStep]
+  | flush => simp [emitStep]
+
+theorem emitOps_noctl (m : Nat) (sid : U64) : ∀ (ops : List Op) (s : EState),
+    ∀ f ∈ emitOps m false sid s ops, f.control = false := by
+  intro ops
+  induction ops with
+  | nil => intro s f h; simp [emitOps] at h
+  | cons op ops ih =>
+    intro s f h
+    simp only [emitOps, List.mem_append] at h
+    rcases h with h | h
+    · exact emitStep_noctl m sid s op f h
+    · exact ih _ f h
+
+theorem emitConn_noctl (m : Nat) : ∀ (conn : List (U64 × List Op)),
+    ∀ f ∈ emitConn m false conn, f.control = false := by
+  intro conn
+  induction conn with
+  | nil => intro f h; simp [emitConn] at h
+  | cons st rest ih =>
+    obtain ⟨sid, ops⟩ := st
+    intro f h
+    simp only [emitConn, List.mem_append] at h
+    rcases h with h | h
+    · exact emitOps_noctl m sid ops _ f h
+    · exact ih f h
+
+theorem wellFormed_emitConn (m : Nat) (soft : Bool) (conn : List (U64 × List Op)) (hok : connOk conn)
+    (hinc : sidsIncreasing 0#64 conn) : wellFormed (emitConn m soft conn) = true := by
+  rw [wellFormed_eq_g0]
+  apply emitConn_wf m soft conn g0 hok
+  cases conn with
+  | nil => trivial
+  | cons st rest =>
+    obtain ⟨sid, ops⟩ := st
+    simp only [sidsIncreasing] at hinc
+    refine ⟨?_, hinc.2⟩
+    rw [idLess_false_iff]
+    unfold idLt; simp [g0]
+    have := hinc.1
+    simp at this
+    omega
+
 end Drpc.Compat
